@@ -116,6 +116,16 @@ CHECKS = {
         design_ref="DESIGN.md §5 C11",
         note="Trusted: TLC, pickle as the snapshot function, sha1 digests. Programs are sampled by seed; histories are exhaustive to the stated length.",
     ),
+    "C13": dict(
+        category="model_checking",
+        technique="TLA+ model of save points and follow-up operations (HReplay); TLC-enumerated plans executed with the tool's own "
+                  "dump_program/load_program on real programs; per-operation observational equality validated by TLC",
+        text="Save point (generated / erased once / erased twice / overwritten) x every sequence of <=2 (thorough: <=3) follow-up operations "
+             "(translate own / other language, erase, overwrite, dump-and-load again) plus random longer ones, for programs of all four "
+             "languages; each operation is applied to the original and to the loaded copy with the same random seed.",
+        design_ref="DESIGN.md §5 C13",
+        note="Trusted: TLC, sha1 digests of translated text. Programs sampled by seed. Needs hook H1 for address-independent set iteration.",
+    ),
 }
 
 NOT_YET = "check not built yet (work in progress in this session; see DESIGN.md §10 for the order of work)"
